@@ -162,6 +162,16 @@ def response_len(pdu):
         return 2
     if fc == 24:
         return None if len(pdu) < 3 else 3 + ((pdu[1] << 8) | pdu[2])
+    if fc == 43:
+        # 43/14: fc mei readcode conformity more next count {id len value}*
+        if len(pdu) < 7:
+            return None
+        pos = 7
+        for _ in range(pdu[6]):
+            if len(pdu) < pos + 2:
+                return None
+            pos += 2 + pdu[pos + 1]
+        return pos
     return -1
 
 
